@@ -17,6 +17,8 @@ NUMLIKE = ['INF', 'nan', 'Infinity', 'inf', 'NaN']
 # identifiers outside ASCII (Python 3 names; the tokenizer reports them as NAME tokens like any other)
 UNINAMES = ['α', 'αβ', 'xα', 'é1', 'Δx']
 LITS = ['1e5', '0x1F', '2j', '.5', '1_000', '1e+5', '"x"', "'xx e'", '3', '2.5e-3']
+# formatted string literals: their literal parts and format specifications are string contents (separate tokens since Python 3.12), the replacement fields hold names
+FLITS = ['f"x{x}"', 'f"{x:e}"', "f'e{e}j'", 'f"{xx}x{x1:x}"']
 MAPS = [
     {'x': 'y'}, {'x': 'xx'}, {'xx': 'x'}, {'x': 'xx', 'xx': 'x'}, {'x': 'x1', 'x1': 'x_'}, {'e': 'E'}, {'j': 'J'}, {'k': 'kk'},
     {'x': 'e'}, {'_x': 'x_', 'x_': '_x'}, {'x': 'y', 'xx': 'yy', 'x1': 'y1'}, {'x': 'j', 'j': 'x'}, {'x': 'x'}, {'e': 'j', 'j': 'k', 'k': 'e'},
@@ -57,6 +59,12 @@ def expressions(tier):
         out.append('%s(%s)' % (f, a))
         out.append('%s(k-1)*%s + 1' % (f, a))
         out.append('max(2.0, %s)' % a)
+    for a, op, b in itertools.product(FLITS, ['+', '*', ' + '], FLITS + NAMES[:3] + LITS[6:8]):
+        out.append('%s%s%s' % (a, op, b))
+        out.append('%s%s%s' % (b, op, a))
+    for f, a in itertools.product(NAMES[:3], FLITS):
+        out.append('%s(%s)' % (f, a))
+        out.append('[%s, %s]' % (a, f))
     for a in atoms:
         out += ['-%s' % a, '+ %s' % a, '(%s)' % a, '%s' % a, '((%s))*%s' % (a, a), ' %s ' % a, '+%s' % a, ' - %s' % a, '%s ' % a]
     return out
@@ -93,6 +101,20 @@ def semantic_equal(e, out, mp, D):
         return 'unsat', None
     r, m = D.decide([a != b], ladder=False, timeout_ms=10000)
     return r, m
+
+
+def structure_equal(e, out, mp):
+    """The output, with every renamed name mapped back, is the same syntax tree as the input: operators, numbers and STRING CONTENTS (plain and
+    formatted) untouched.  Only meaningful when the renaming merges no two names of e."""
+    inv = {v: k for k, v in mp.items()}
+    unren = {n for n in set(src_names(e)) if n not in mp}
+
+    class Back(ast.NodeTransformer):
+        def visit_Name(self, n):
+            return ast.copy_location(ast.Name(id=n.id if n.id in unren else inv.get(n.id, n.id), ctx=n.ctx), n)
+    a = ast.dump(ast.parse(e.strip(), mode='eval'))
+    b = ast.dump(Back().visit(ast.parse(out.strip(), mode='eval')))
+    return a == b
 
 
 def merges(e, mp):
@@ -139,6 +161,8 @@ def chunk_work(chunk):
                     bn, on = src_names(before), src_names(eout)
                     if on != [mp.get(n_, n_) for n_ in bn]:
                         res['bad'].append(('Equation.ReplaceTokensFromLookup', e, mp, eout, 'names of output %r, held expression %r has %r' % (on, before, bn)))
+                    elif not merges(before, mp) and not structure_equal(before, eout, mp):
+                        res['bad'].append(('Equation.ReplaceTokensFromLookup', e, mp, eout, 'something other than the requested names changed (operators, numbers or string contents)'))
                     elif not merges(before, mp):
                         r, m = semantic_equal(before, eout, mp, D)
                         res['sem'] += 1
@@ -185,6 +209,9 @@ def chunk_work(chunk):
                         continue
                     if merges(e, mp):
                         res['skipped_merge'] += 1
+                        continue
+                    if not structure_equal(e, out, mp):
+                        res['bad'].append((fn, e, mp, out, 'something other than the requested names changed (operators, numbers or string contents)'))
                         continue
                     try:
                         r, m = semantic_equal(e, out, mp, D)
@@ -251,7 +278,7 @@ def run(tier, seed):
     import sfc_models.equation
     chk.encode(U.list_tokens, U.replace_token, U.replace_token_from_lookup, sfc_models.equation.Term.ReplaceTokensFromLookup, sfc_models.equation.Equation.ReplaceTokensFromLookup)
     ex = expressions(tier)
-    chk.bounds = {'expressions': len(ex), 'renaming maps': len(MAPS), 'names': NAMES + NUMLIKE + UNINAMES, 'literals': LITS,
+    chk.bounds = {'expressions': len(ex), 'renaming maps': len(MAPS), 'names': NAMES + NUMLIKE + UNINAMES, 'literals': LITS + FLITS,
                   'grammar': 'binary/ternary arithmetic, power, comparisons, calls (1-2 args), lag notation x(k-1) and tokenizer-spaced, '
                              'list literals, unary signs, brackets; <= 7 tokens',
                   'numeric domain': 'all reals for every name; string/complex literals as opaque constants; function symbols uninterpreted'}
